@@ -1344,6 +1344,9 @@ func (e *eg[E, S]) seqCase(id string, a *big.Int, ops []pop) *testCase {
 		}
 		tc.oracle = append(tc.oracle, "ok")
 	}
+	tc.shrink = func(n int) string {
+		return fmt.Sprintf("L %s:%s %s %s %s", e.nm, id, zh(e.q), zh(a), egOpsText(pruneOps(ops, n)))
+	}
 	tc.cmpTok = func(n int, model string) (bool, string) {
 		if errs[n] != "" {
 			return false, "implementation " + errs[n] + ", model " + model
@@ -1828,7 +1831,9 @@ func main() {
 				cases = append(cases, k.qCase(id("norm", i), "norm", x), k.qCase(id("rep", i), "rep", x))
 			}
 		}
-		for i, x := range []*big.Int{big.NewInt(0), big.NewInt(1), nm1, k.N, new(big.Int).Add(k.N, one), k.p, new(big.Int).Mul(k.q, two), new(big.Int).Add(k.N, k.p)} {
+		// NewNonce: units of Z_N accepted, 0 / N / multiples of a factor refused (values above N are
+		// left out: whether they are reduced or refused is not part of the property)
+		for i, x := range []*big.Int{big.NewInt(0), big.NewInt(1), two, nm1, k.N, k.p, new(big.Int).Mul(k.q, two), new(big.Int).Sub(k.N, k.p)} {
 			cases = append(cases, k.qCase(id("unit", i), "unit", x))
 		}
 		for i := 0; i < nsingle; i++ {
